@@ -228,6 +228,7 @@ int main(int argc, char** argv) {
     auto pickFrom = [&](const std::string& f) { return rng.pick(R.fam.at(f))(); };
     auto pickAny  = [&]() { return pickFrom(rng.pick(regular)); };
     std::vector<std::unique_ptr<Field>> fields;
+    bool nulFamily = false;
     if (fam < 13)
       fields.push_back(pickFrom(family));
     else if (family == "nested SerializeBuffer" || family == "nested DeSerializeBuffer" ||
@@ -254,12 +255,13 @@ int main(int argc, char** argv) {
       for (unsigned i = 0; i < n; ++i)
         fields.push_back(pickAny());
     } else if (family == "string(embedded NUL)") {
-      ctx.nulStrings = true;
-      switch (rng.below(4)) {
-      case 0: fields.push_back(pickFrom("string")); break;
-      case 1: fields.push_back(std::unique_ptr<Field>(new FieldT<std::vector<std::string>>())); break;
-      case 2: fields.push_back(std::unique_ptr<Field>(new FieldT<Ser>())); break;
-      default:
+      nulFamily = true;
+      // top-level strings only: the reader stops at the first NUL, so a string nested in a container would
+      // make the library itself parse the rest of the bytes as something else (arbitrary follow-up crashes
+      // instead of one clean verdict); here the harness stops at the first field that fails
+      if (rng.chance(1, 2))
+        fields.push_back(pickFrom("string"));
+      else {
         fields.push_back(pickAny());
         fields.push_back(pickFrom("string"));
         fields.push_back(pickAny());
@@ -284,8 +286,11 @@ int main(int argc, char** argv) {
     std::string typeNames;
     for (size_t i = 0; i < fields.size(); ++i)
       typeNames += (i ? " + " : "") + fields[i]->name();
-    for (auto& f : fields)
-      f->gen(ctx);
+    for (size_t i = 0; i < fields.size(); ++i) {
+      ctx.nulStrings = nulFamily && (fields.size() == 1 || i == 1); // only the designated top-level string
+      fields[i]->gen(ctx);
+    }
+    ctx.nulStrings = false;
     std::string values;
     for (size_t i = 0; i < fields.size(); ++i)
       values += (i ? " ; " : "") + fields[i]->showValue();
